@@ -347,6 +347,12 @@ def selfref_catalogue():
                 '(deftemplate a (v) (%s a $v)) (%s a 1)' % (sp, sp),
                 '(deftemplate a (v) $v) (%s a (%s a 1))' % (sp, sp),
                 '(deftemplate a () (if-equal 1 1 (%s a))) (%s a)' % (sp, sp)]
+    # the include form in every place that reads one (top level, defchordsv2): no name, a list, a missing file, a file of the
+    # wrong kind (lines without a tab)
+    for inc in ('(include)', '(include (a))', '(include nofile-kv.txt)', '(include "no file.kbd")', '(include a b)',
+                '(include /verif/harness/Cargo.toml)', '(include /verif)', '(include "")'):
+        out += [inc, '(defchordsv2 %s x 100 all-released ())' % inc, '(defchordsv2 %s () 100 all-released (base))' % inc,
+                '(defchordsv2 %s)' % inc, '(deflayer inc %s)' % inc, '(defalias i %s)' % inc]
     out += ['(defvar a $a) (defalias x $a)', '(defvar a $b b $a) (defalias x $b)', '(defvar a (multi $a)) (defalias x $a)',
             '(defvar a (concat $a)) (defalias x $a)', '(defvar a (concat b $c) c $a) (defalias x $a)',
             '(defalias x @x)', '(defalias x (multi @y) y @x)', '(defalias x (tap-hold 1 1 @x @x))',
@@ -368,6 +374,11 @@ def capacity_catalogue():
         out.append(('fake+vkeys-%d' % n, base + '(deffakekeys %s)\n(defvirtualkeys %s)' % (
             ' '.join('f%d x' % i for i in range(half)), ' '.join('v%d y' % i for i in range(n - half)))))
         out.append(('vkeys-used-%d' % n, '(defsrc a b)\n(deflayer base (on-press tap-vkey v%d) (on-press press-vkey v0))\n(defvirtualkeys %s)' % (n - 1, names)))
+    for n in (765, 766, 767, 768, 769, 1000, 65535, 65536):
+        # a local key name bound to a code at / beyond the width of the layer tables, used in defsrc and in a layer
+        out.append(('localkey-src-%d' % n, '(deflocalkeys-linux foo %d)\n(defsrc foo)\n(deflayer base a)' % n))
+        out.append(('localkey-act-%d' % n, '(deflocalkeys-linux foo %d)\n(defsrc a)\n(deflayer base foo)' % n))
+        out.append(('localkey-map-%d' % n, '(deflocalkeys-linux foo %d)\n(defsrc a)\n(deflayer base a)\n(deflayermap (m) foo b)' % n))
     for n in (126, 127, 128, 129, 130):
         keys = ' '.join('(k%d) a' % i for i in range(n))
         out.append(('chord-keys-%d' % n, '(defsrc a b)\n(deflayer base (chord g k0) (chord g k%d))\n(defchords g 100 %s)' % (n - 1, keys)))
